@@ -347,11 +347,25 @@ def check_one_cell(case) -> Result:
                 d.to(units[al['u2'] % len(units)], inplace=True)
     except ValueError:
         return Result(classes=('invalid-operand',))
+    # an operand object that already took part in an operation with another partner (same kind as the real partner,
+    # written in another unit) is the same quantity afterwards: whatever the outcome of the warm-up, the judged
+    # operation must still be right
+    sh = case.get('shared')
+    if sh:
+        x, y = (b, a) if sh['which'] == 'b' else (a, b)
+        try:
+            if hasattr(y, 'to'):
+                units = list(U.UNITS[type(y).__name__])
+                y = y.to(units[sh['unit_ix'] % len(units)])
+            do(sh['op'], y, x) if sh['which'] == 'b' else do(sh['op'], x, y)
+        except (TypeError, ValueError, ZeroDivisionError):
+            pass
     out = []
     c = check_cell(op, ka, kb, a, b, out)
     if not _is_num(ka) and not _is_num(kb) and _ROOT[ka] == _ROOT[kb]:
         inverse_laws(ka, kb, a, b, out)
-    res.classes = (f'outcome:{c}', f'op:{op}') + (('pre-converted',) if case.get('pre_a') or case.get('pre_b') else ())
+    res.classes = (f'outcome:{c}', f'op:{op}') + (('pre-converted',) if case.get('pre_a') or case.get('pre_b') else ()) + \
+        (('shared-operand',) if sh else ())
     ua, ub = getattr(a, 'unit', None), getattr(b, 'unit', None)
     res.nontrivial = (ua != ub) and c in ('value', 'bad', 'ValueError')
     seen = set()
@@ -407,6 +421,9 @@ def s_one_cell(draw):
     for key in ('alias_a', 'alias_b'):
         if draw(st.integers(0, 4)) == 0:
             case[key] = {'u1': draw(st.integers(0, 16)), 'u2': draw(st.integers(0, 16))}
+    if draw(st.integers(0, 3)) == 0:
+        case['shared'] = {'which': draw(st.sampled_from(['a', 'b'])), 'unit_ix': draw(st.integers(0, 16)),
+                          'op': op if draw(st.booleans()) else draw(st.sampled_from(OPS))}
     return case
 
 
